@@ -4,14 +4,18 @@
 //! EdDSA verifier. Every token is hand-assembled JSON signed by the harness (`vx::fx::compact_ed`), because
 //! the library cannot emit the inconsistent / out-of-range claim sets.
 //!
-//! World: holder document H = did:example:holder with
-//!   a1  embedded in `authentication`                       key 0
-//!   g2  general method, referenced from `authentication`   key 1
-//!   g3  general method only                                key 2
-//!   f4  general method with a FOREIGN id did:example:other#f4   key 3   (recorded, not judged)
-//!   s5  embedded in `assertionMethod`                      key 4
-//!   x6  general method without a JWK (publicKeyMultibase)  no key
-//! key 9 belongs to nobody.
+//! Worlds: three holder documents with id H = did:example:holder (choice point "holder document"); the key of a
+//! method is fixed by its fragment: a1 key 0, g2 key 1, g3 key 2, f4 key 3, s5 key 4, k7 key 5, d8 key 6, i9 key 7,
+//! x6 has no JWK (publicKeyMultibase); key 9 belongs to nobody.
+//!   D0 "rich"    a1 embedded in `authentication`; g2 general + referenced from `authentication`; g3 general only;
+//!                f4 general with a FOREIGN id did:example:other#f4 (recorded, not judged); s5 embedded in
+//!                `assertionMethod`; x6 general; k7 embedded in `keyAgreement`; d8 embedded in `capabilityDelegation`;
+//!                i9 general + referenced from `capabilityInvocation`; a dangling reference H#gone in `assertionMethod`;
+//!                document `controller` and `alsoKnownAs` = did:example:other (must not make iss = other acceptable)
+//!   D1 "minimal" a1 embedded in `authentication`, nothing else
+//!   D2 "moved"   the same fragments in other places and in reverse order: a1 general + referenced from
+//!                `assertionMethod`; g2 general + `assertionMethod`; g3 general + `authentication`; i9 general +
+//!                `capabilityDelegation`; s5 embedded in `keyAgreement`; k7, d8 embedded in `capabilityInvocation`
 //!
 //! Oracle (written from the property statement, not from the implementation): from the choices the set E of
 //! FALSE stated conditions {sig, key, kid, nonce, iss, exp, issuance, vp.holder, vp.id} and the set O of OPEN
@@ -19,11 +23,15 @@
 //!   safety   : accepted  =>  E = {}                                   (every case)
 //!   returned : accepted  =>  presentation / aud / dates / custom claims equal what was signed (every case)
 //!   liveness : E = {} and O = {}  =>  accepted
-//!   blame    : rejected and O = {}  =>  every reported error is of a class that legitimately blames a member of E
-//! Parts: the deviation-bounded exploration over all 19 choice points (quick <= 3, thorough <= 4 deviations), two
+//!   blame    : rejected  =>  every reported error whose variant has a documented meaning is of a class that may
+//!              blame a member of E or be produced by a member of O (the sets are generous: every variant whose
+//!              documentation is compatible with the false condition; variants the check does not know and an empty
+//!              error list are recorded, not judged)
+//! Parts: the deviation-bounded exploration over all 20 choice points (quick <= 3, thorough <= 4 deviations), two
 //! condition lattices (each stated condition true / false in every combination), the complete products of the
-//! four groups (binding core, dates, claims, misc) and of the pairs dates x claims, claims x misc, and (thorough)
-//! binding core x claims, with all other points at their default.
+//! groups (binding core incl. nonce^2 and the three documents, dates, claims, misc) and of the pairs dates x claims,
+//! claims x misc, and (thorough) binding core without nonces x claims, dates x misc, nonce^2 x claims, with all other
+//! points at their default.
 
 use identity_core::common::{Object, Timestamp};
 use identity_core::convert::FromJson;
@@ -39,8 +47,7 @@ use identity_verification::MethodScope;
 use once_cell::sync::Lazy;
 use serde::{Deserialize, Serialize};
 use serde_json::{Map, Value};
-use std::collections::{BTreeMap, BTreeSet, HashSet};
-use std::sync::atomic::{AtomicU64, Ordering};
+use std::collections::{BTreeMap, HashSet};
 use std::sync::Mutex;
 use vx::choice::{self, Chooser};
 use vx::fx::{self, EdKey, RealVerifier};
@@ -61,7 +68,9 @@ const G_BIND: u8 = 1;
 const G_DATES: u8 = 2;
 const G_CLAIMS: u8 = 4;
 const G_MISC: u8 = 8;
-const G_ALL: u8 = 15;
+/// header nonce x option nonce (split from the binding core so that the core can be multiplied with other groups)
+const G_NONCE: u8 = 64;
+const G_ALL: u8 = 15 | G_NONCE;
 /// lattice mode: every stated condition true / false (one canonical falsifier each), all 2^k combinations
 const G_LATTICE: u8 = 16;
 const G_VARIANT_B: u8 = 32;
@@ -74,72 +83,143 @@ struct Case {
   seq: Vec<u32>,
 }
 
+// relationships of a method (bit set)
+const R_AUTH: u8 = 1;
+const R_ASSERT: u8 = 2;
+const R_KA: u8 = 4;
+const R_CD: u8 = 8;
+const R_CI: u8 = 16;
+
 struct Method {
   id: String,
   frag: &'static str,
   key: Option<usize>,
+  /// listed in `verificationMethod`
   general: bool,
-  auth: bool,
-  assertion: bool,
+  /// relationships it is embedded in or referenced from
+  rels: u8,
   foreign: bool,
 }
 
 struct World {
   doc: CoreDocument,
-  keys: Vec<EdKey>,
   methods: Vec<Method>,
+}
+
+struct Fixture {
+  keys: Vec<EdKey>,
+  worlds: Vec<World>,
   validator: JwtPresentationValidator<RealVerifier>,
 }
 
-fn jwk_method(id: &str, controller: &str, key: &EdKey) -> Value {
-  json!({"id": id, "controller": controller, "type": "JsonWebKey2020",
-         "publicKeyJwk": serde_json::to_value(key.public_with_alg("EdDSA")).expect("jwk json")})
+/// the key of a method is fixed by its fragment
+fn key_of(frag: &str) -> Option<usize> {
+  match frag {
+    "a1" => Some(0),
+    "g2" => Some(1),
+    "g3" => Some(2),
+    "f4" => Some(3),
+    "s5" => Some(4),
+    "k7" => Some(5),
+    "d8" => Some(6),
+    "i9" => Some(7),
+    _ => None,
+  }
 }
 
-static WORLD: Lazy<World> = Lazy::new(|| {
+static FIX: Lazy<Fixture> = Lazy::new(|| {
   let keys: Vec<EdKey> = (0..10u8).map(EdKey::new).collect();
-  let m = |frag: &'static str, did: &str, key, general, auth, assertion| Method {
+  let m = |frag: &'static str, did: &str, general: bool, rels: u8| Method {
     id: format!("{did}#{frag}"),
     frag,
-    key,
+    key: key_of(frag),
     general,
-    auth,
-    assertion,
+    rels,
     foreign: did != H,
   };
-  let methods = vec![
-    m("a1", H, Some(0), false, true, false),
-    m("g2", H, Some(1), true, true, false),
-    m("g3", H, Some(2), true, false, false),
-    m("f4", OTHER, Some(3), true, false, false),
-    m("s5", H, Some(4), false, false, true),
-    m("x6", H, None, true, false, false),
-  ];
-  let doc_json = json!({
-    "id": H,
-    "verificationMethod": [
-      jwk_method(&methods[1].id, H, &keys[1]),
-      jwk_method(&methods[2].id, H, &keys[2]),
-      jwk_method(&methods[3].id, OTHER, &keys[3]),
-      {"id": methods[5].id, "controller": H, "type": "Ed25519VerificationKey2018",
-       "publicKeyMultibase": "zH3C2AVvLMv6gmMNam3uVAjZpfkcJCwDwnZn6z3wXmqPV"},
+  // the JSON of a method (embedded or general)
+  let mj = |frag: &str, did: &str| -> Value {
+    let id = format!("{did}#{frag}");
+    match key_of(frag) {
+      Some(k) => json!({"id": id, "controller": did, "type": "JsonWebKey2020",
+                        "publicKeyJwk": serde_json::to_value(keys[k].public_with_alg("EdDSA")).expect("jwk json")}),
+      None => json!({"id": id, "controller": did, "type": "Ed25519VerificationKey2018",
+                     "publicKeyMultibase": "zH3C2AVvLMv6gmMNam3uVAjZpfkcJCwDwnZn6z3wXmqPV"}),
+    }
+  };
+  let r = |frag: &str| format!("{H}#{frag}");
+  let build = |doc_json: Value, methods: Vec<Method>| {
+    // D0 carries a dangling reference (H#gone); should the constructor ever refuse such documents, the same
+    // document without it is used (the model does not depend on it: H#gone names no method either way)
+    let mut plain = doc_json.clone();
+    if let Some(a) = plain.get_mut("assertionMethod").and_then(|v| v.as_array_mut()) {
+      a.retain(|v| v.as_str().map(|s| !s.ends_with("#gone")).unwrap_or(true));
+    }
+    let doc = CoreDocument::from_json_value(doc_json).or_else(|_| CoreDocument::from_json_value(plain)).expect("holder document");
+    World { doc, methods }
+  };
+  // D0 rich
+  let d0 = build(
+    json!({
+      "id": H,
+      "controller": OTHER,
+      "alsoKnownAs": [OTHER],
+      "verificationMethod": [ mj("g2", H), mj("g3", H), mj("f4", OTHER), mj("x6", H), mj("i9", H) ],
+      "authentication": [ mj("a1", H), r("g2") ],
+      "assertionMethod": [ mj("s5", H), r("gone") ],
+      "keyAgreement": [ mj("k7", H) ],
+      "capabilityDelegation": [ mj("d8", H) ],
+      "capabilityInvocation": [ r("i9") ],
+    }),
+    vec![
+      m("a1", H, false, R_AUTH),
+      m("g2", H, true, R_AUTH),
+      m("g3", H, true, 0),
+      m("f4", OTHER, true, 0),
+      m("s5", H, false, R_ASSERT),
+      m("x6", H, true, 0),
+      m("k7", H, false, R_KA),
+      m("d8", H, false, R_CD),
+      m("i9", H, true, R_CI),
     ],
-    "authentication": [ jwk_method(&methods[0].id, H, &keys[0]), methods[1].id ],
-    "assertionMethod": [ jwk_method(&methods[4].id, H, &keys[4]) ],
-  });
-  let doc = CoreDocument::from_json_value(doc_json).expect("holder document");
-  World { doc, keys, methods, validator: JwtPresentationValidator::with_signature_verifier(RealVerifier) }
+  );
+  // D1 minimal
+  let d1 = build(json!({"id": H, "authentication": [ mj("a1", H) ]}), vec![m("a1", H, false, R_AUTH)]);
+  // D2 moved / reordered
+  let d2 = build(
+    json!({
+      "id": H,
+      "verificationMethod": [ mj("x6", H), mj("f4", OTHER), mj("i9", H), mj("g3", H), mj("g2", H), mj("a1", H) ],
+      "authentication": [ r("g3") ],
+      "assertionMethod": [ r("g2"), r("a1") ],
+      "keyAgreement": [ mj("s5", H) ],
+      "capabilityDelegation": [ r("i9") ],
+      "capabilityInvocation": [ mj("d8", H), mj("k7", H) ],
+    }),
+    vec![
+      m("a1", H, true, R_ASSERT),
+      m("g2", H, true, R_ASSERT),
+      m("g3", H, true, R_AUTH),
+      m("f4", OTHER, true, 0),
+      m("s5", H, false, R_KA),
+      m("x6", H, true, 0),
+      m("k7", H, false, R_CI),
+      m("d8", H, false, R_CI),
+      m("i9", H, true, R_CD),
+    ],
+  );
+  let worlds = vec![d0, d1, d2];
+  Fixture { keys, worlds, validator: JwtPresentationValidator::with_signature_verifier(RealVerifier) }
 });
 
 // ---------------------------------------------------------------- cheap per-thread accumulation
 struct Acc {
   shards: Vec<Mutex<(BTreeMap<String, u64>, HashSet<u64>)>>,
-  samples: AtomicU64,
 }
 impl Acc {
   fn new() -> Acc {
     let n = vx::rayon::current_num_threads() + 1;
-    Acc { shards: (0..n).map(|_| Mutex::new((BTreeMap::new(), HashSet::new()))).collect(), samples: AtomicU64::new(0) }
+    Acc { shards: (0..n).map(|_| Mutex::new((BTreeMap::new(), HashSet::new()))).collect() }
   }
   fn shard(&self) -> &Mutex<(BTreeMap<String, u64>, HashSet<u64>)> {
     let i = vx::rayon::current_thread_index().map(|i| i + 1).unwrap_or(0);
@@ -170,7 +250,8 @@ struct Expect {
   /// false condition -> (witness class for the key, error classes that legitimately blame it)
   e: BTreeMap<&'static str, (&'static str, Vec<&'static str>)>,
   /// open aspects
-  o: BTreeSet<&'static str>,
+  /// open aspect -> error classes it may legitimately produce
+  o: BTreeMap<&'static str, &'static [&'static str]>,
 }
 impl Expect {
   fn fail(&mut self, cond: &'static str, class: &'static str, legit: &[&'static str]) {
@@ -185,6 +266,8 @@ impl Expect {
   }
 }
 
+/// Error classes. A class carries the documented meaning of the variant; variants this check does not know
+/// (the enums are `non_exhaustive`) fall into `other` / `Jws:other`, which are recorded and never judged.
 fn classify(err: &JwtValidationError) -> &'static str {
   match err {
     JwtValidationError::PresentationJwsError(e) => match e {
@@ -197,6 +280,10 @@ fn classify(err: &JwtValidationError) -> &'static str {
       },
       _ => "Jws:other",
     },
+    JwtValidationError::JwsDecodingError(_) => "JwsDecodingError",
+    JwtValidationError::Signature { .. } => "Signature",
+    JwtValidationError::MethodDataLookupError { .. } => "MethodDataLookupError",
+    JwtValidationError::MissingPresentationHolder => "MissingPresentationHolder",
     JwtValidationError::PresentationStructure(_) => "PresentationStructure",
     JwtValidationError::SignerUrl { .. } => "SignerUrl",
     JwtValidationError::DocumentMismatch { .. } => "DocumentMismatch",
@@ -205,6 +292,27 @@ fn classify(err: &JwtValidationError) -> &'static str {
     _ => "other",
   }
 }
+fn unjudged_class(c: &str) -> bool {
+  c == "other" || c == "Jws:other"
+}
+
+// Error classes whose documented meaning is compatible with the false condition. The statement ties no condition
+// to one particular variant, so the sets are generous; what they exclude is an error that names a condition that
+// holds (ExpirationDate for a token whose only fault is the nonce, DocumentMismatch for a bad signature, ...).
+const L_KID: &[&str] = &["Jws:MethodNotFound", "Jws:param", "Jws:decode", "JwsDecodingError", "Signature", "MethodDataLookupError"];
+const L_KEY: &[&str] = &["Jws:InvalidKeyMaterial", "Jws:signature", "Jws:param", "Signature", "MethodDataLookupError"];
+const L_SIG: &[&str] = &["Jws:signature", "Signature"];
+const L_JWS_ANY: &[&str] =
+  &["Jws:MethodNotFound", "Jws:InvalidKeyMaterial", "Jws:signature", "Jws:param", "Jws:decode", "JwsDecodingError", "Signature", "MethodDataLookupError"];
+const L_NONCE: &[&str] = &["Jws:param", "Jws:decode", "JwsDecodingError", "Signature"];
+const L_EXP: &[&str] = &["ExpirationDate"];
+const L_EXP_RANGE: &[&str] = &["ExpirationDate", "PresentationStructure"];
+const L_ISSUANCE: &[&str] = &["IssuanceDate"];
+const L_ISSUANCE_RANGE: &[&str] = &["IssuanceDate", "PresentationStructure"];
+const L_ISS_OTHER_DID: &[&str] = &["DocumentMismatch"];
+const L_ISS_NOT_DID: &[&str] = &["SignerUrl", "DocumentMismatch", "PresentationStructure"];
+const L_ISS_ABSENT: &[&str] = &["PresentationStructure", "MissingPresentationHolder", "SignerUrl", "DocumentMismatch"];
+const L_VP: &[&str] = &["PresentationStructure"];
 
 /// A choice point of group `g` with `n` alternatives. In lattice mode the point offers only the default and
 /// one canonical falsifier of "its" condition (`lat_a` / `lat_b` = the two falsifier variants); points that
@@ -231,17 +339,21 @@ fn pt(ch: &mut Chooser, groups: u8, g: u8, label: &'static str, n: usize, lat_a:
 
 /// One case: build token + options from the choices, run the real validator, judge.
 fn body(ctx: &Ctx, acc: &Acc, groups: u8, ch: &mut Chooser) {
-  let w: &World = &WORLD;
+  let fix: &Fixture = &FIX;
   let mut x = Expect::default();
 
   // ------------------------------------------------------------ binding core
+  let world_c = pt(ch, groups, G_BIND, "holder document", 3, &[], &[]);
   let sig_c = pt(ch, groups, G_BIND, "signature", 4, &[2], &[1]);
-  let kid_c = pt(ch, groups, G_BIND, "kid", 13, &[8, 11], &[10, 9]);
-  let ovr_c = pt(ch, groups, G_BIND, "method_id", 5, &[], &[]);
-  let scope_c = pt(ch, groups, G_BIND, "method_scope", 5, &[], &[2]);
-  let hnonce_c = pt(ch, groups, G_BIND, "header nonce", 3, &[1], &[]);
-  let ononce_c = pt(ch, groups, G_BIND, "option nonce", 3, &[], &[2]);
+  let kid_c = pt(ch, groups, G_BIND, "kid", 23, &[8, 11], &[10, 9]);
+  let ovr_c = pt(ch, groups, G_BIND, "method_id", 7, &[], &[]);
+  let scope_c = pt(ch, groups, G_BIND, "method_scope", 7, &[], &[2]);
+  let hnonce_c = pt(ch, groups, G_NONCE, "header nonce", 5, &[1], &[]);
+  let ononce_c = pt(ch, groups, G_NONCE, "option nonce", 5, &[], &[2]);
+  let w: &World = &fix.worlds[world_c];
 
+  // did:example:holdes has the length of H and differs in the last character only
+  const H_SAME_LEN: &str = "did:example:holdes";
   let kid: Option<String> = match kid_c {
     0 => Some(format!("{H}#a1")),
     1 => Some("a1".into()),
@@ -255,45 +367,71 @@ fn body(ctx: &Ctx, acc: &Acc, groups: u8, ch: &mut Chooser) {
     9 => Some(format!("{OTHER}#a1")),
     10 => None,
     11 => Some(format!("{H}#x6")),
-    _ => Some(format!("{H}?versionId=1#a1")),
+    12 => Some(format!("{H}?versionId=1#a1")),
+    13 => Some(format!("{H}#k7")),
+    14 => Some(format!("{H}#d8")),
+    15 => Some(format!("{H}#i9")),
+    16 => Some(String::new()),
+    17 => Some("A1".into()),
+    18 => Some("a".into()),
+    19 => Some(format!("{H_SAME_LEN}#a1")),
+    20 => Some(H.into()),
+    21 => Some(format!("{H}#gone")),
+    _ => Some(format!("{H}#a1x")),
   };
   let override_id: Option<String> = match ovr_c {
     0 => None,
     1 => Some(format!("{H}#a1")),
     2 => Some(format!("{H}#g3")),
     3 => Some(format!("{OTHER}#f4")),
-    _ => Some(format!("{H}#nope")),
+    4 => Some(format!("{H}#nope")),
+    5 => Some(format!("{H_SAME_LEN}#a1")),
+    _ => Some(format!("{H}#k7")),
   };
   // "If unset, the kid of the JWS is used": the configured method id wins.
   let selector: Option<String> = override_id.clone().or(kid.clone());
   let mut sel_for_model = selector.clone();
   if override_id.is_none() && kid_c == 12 {
     // a full id carrying a query: whether that "is" the id of a1 is left open; modelled as a1 and marked open
-    x.o.insert("kid-with-query");
+    x.o.insert("kid-with-query", L_KID);
     sel_for_model = Some(format!("{H}#a1"));
   }
   let in_scope = |m: &Method| match scope_c {
     0 => true,
-    1 => m.auth,
-    2 => m.assertion,
+    1 => m.rels & R_AUTH != 0,
+    2 => m.rels & R_ASSERT != 0,
     3 => m.general,
-    _ => false,
+    4 => m.rels & R_KA != 0,
+    5 => m.rels & R_CD != 0,
+    _ => m.rels & R_CI != 0,
   };
+  // selection by full id, by fragment, or by '#' + fragment (fragments are unique inside every document)
   let candidate: Option<&Method> = sel_for_model.as_deref().and_then(|s| {
     w.methods.iter().find(|m| in_scope(m) && (s == m.id || s == m.frag || s.strip_prefix('#') == Some(m.frag)))
   });
   match candidate {
-    None => x.fail("kid", if selector.is_none() { "absent" } else { "no-method-in-scope" }, &["Jws:MethodNotFound", "Jws:param"]),
+    None => x.fail("kid", if selector.is_none() { "absent" } else { "no-method-in-scope" }, L_KID),
     Some(m) => {
       if m.foreign {
-        x.o.insert("foreign-did-method");
+        x.o.insert("foreign-did-method", L_JWS_ANY);
+      }
+      if !m.general && m.rels == R_KA {
+        // a key listed for key agreement only: that it must be usable for verifying a signature is not stated
+        x.o.insert("key-agreement-only-method", L_JWS_ANY);
       }
       if m.key.is_none() {
-        x.fail("key", "method-without-jwk", &["Jws:InvalidKeyMaterial"]);
+        x.fail("key", "method-without-jwk", L_KEY);
       }
     }
   }
-  let right_key: usize = candidate.and_then(|m| m.key).unwrap_or(0);
+  // The signing key: the chosen method's. When no method may be chosen (unknown, out of scope, under another DID,
+  // wrong case), the token is signed with the key of the method the selector "nearly" names - the same fragment
+  // ignoring DID, scope and ASCII case - so that a lookup that wrongly finds that method ends in acceptance.
+  let near: Option<&Method> = selector.as_deref().and_then(|s| {
+    let frag = s.rsplit('#').next().unwrap_or(s);
+    w.methods.iter().find(|m| m.frag.eq_ignore_ascii_case(frag))
+  });
+  let right_key: usize = candidate.and_then(|m| m.key).or(near.and_then(|m| m.key)).unwrap_or(0);
   let sign_key: usize = match sig_c {
     0 | 3 => right_key,
     1 => {
@@ -306,16 +444,33 @@ fn body(ctx: &Ctx, acc: &Acc, groups: u8, ch: &mut Chooser) {
     _ => 9,
   };
   if sig_c != 0 && candidate.map(|m| m.key.is_some()).unwrap_or(false) {
-    x.fail("sig", ["", "other-method-of-holder", "foreign-key", "payload-replaced"][sig_c], &["Jws:signature"]);
+    x.fail("sig", ["", "other-method-of-holder", "foreign-key", "payload-replaced"][sig_c], L_SIG);
   }
   let nonce_of = |c: usize| match c {
     0 => None,
     1 => Some("nonce-1"),
-    _ => Some("nonce-2"),
+    2 => Some("nonce-2"),
+    3 => Some(""),
+    _ => Some("nonce-1x"),
   };
   let (hnonce, ononce) = (nonce_of(hnonce_c), nonce_of(ononce_c));
   if hnonce != ononce {
-    x.fail("nonce", if hnonce.is_none() { "header-absent" } else if ononce.is_none() { "option-absent" } else { "different" }, &["Jws:param"]);
+    if hnonce.unwrap_or("").is_empty() && ononce.unwrap_or("").is_empty() {
+      // an empty nonce on one side, none on the other: whether that "matches" is left open
+      x.o.insert("nonce-empty-vs-absent", L_NONCE);
+    } else {
+      let class = if hnonce.is_none() {
+        "header-absent"
+      } else if ononce.is_none() {
+        "option-absent"
+      } else if hnonce_c.min(ononce_c) == 1 && hnonce_c.max(ononce_c) == 4 {
+        // "nonce-1" against "nonce-1x"
+        "prefix"
+      } else {
+        "different"
+      };
+      x.fail("nonce", class, L_NONCE);
+    }
   }
 
   // ------------------------------------------------------------ dates
@@ -341,15 +496,15 @@ fn body(ctx: &Ctx, acc: &Acc, groups: u8, ch: &mut Chooser) {
   };
   match exp_int {
     Some(e) if e < bx => {
-      let legit: &[&str] = if e < MIN_TS { &["ExpirationDate", "PresentationStructure"] } else { &["ExpirationDate"] };
+      let legit: &[&str] = if e < MIN_TS { L_EXP_RANGE } else { L_EXP };
       x.fail("exp", if e < MIN_TS { "below-year-0" } else { "before-bound" }, legit);
     }
     Some(e) if e > MAX_TS => {
       // later than the bound, but not a representable date: whether it is accepted is not stated here (C07)
-      x.o.insert("exp-after-year-9999");
+      x.o.insert("exp-after-year-9999", L_EXP_RANGE);
     }
     None if exp_json.is_some() => {
-      x.o.insert("exp-non-integer");
+      x.o.insert("exp-non-integer", L_EXP_RANGE);
     }
     _ => {}
   }
@@ -375,7 +530,7 @@ fn body(ctx: &Ctx, acc: &Acc, groups: u8, ch: &mut Chooser) {
   let issuance: Option<i64> = nbf.or(iat);
   if let Some(t) = issuance {
     if t > bl {
-      let legit: &[&str] = if t > MAX_TS { &["IssuanceDate", "PresentationStructure"] } else { &["IssuanceDate"] };
+      let legit: &[&str] = if t > MAX_TS { L_ISSUANCE_RANGE } else { L_ISSUANCE };
       let class = match (nbf.is_some(), iat.is_some()) {
         (true, true) => "nbf-over-iat",
         (true, false) => "nbf",
@@ -383,19 +538,19 @@ fn body(ctx: &Ctx, acc: &Acc, groups: u8, ch: &mut Chooser) {
       };
       x.fail("issuance", class, legit);
     } else if t < MIN_TS {
-      x.o.insert("issuance-below-year-0");
+      x.o.insert("issuance-below-year-0", L_ISSUANCE_RANGE);
     }
   }
   if let (Some(_), Some(i)) = (nbf, iat) {
     if i > bl {
       // nbf decides; an iat that alone would not pass is left open for liveness
-      x.o.insert("iat-after-bound-beside-nbf");
+      x.o.insert("iat-after-bound-beside-nbf", L_ISSUANCE_RANGE);
     }
   }
 
   // ------------------------------------------------------------ claims
-  let iss_c = pt(ch, groups, G_CLAIMS, "iss", 8, &[1], &[2]);
-  let vph_c = pt(ch, groups, G_CLAIMS, "vp.holder", 3, &[2], &[2]);
+  let iss_c = pt(ch, groups, G_CLAIMS, "iss", 12, &[1], &[2]);
+  let vph_c = pt(ch, groups, G_CLAIMS, "vp.holder", 4, &[2], &[2]);
   let id_c = pt(ch, groups, G_CLAIMS, "jti/vp.id", 5, &[3], &[4]);
   let iss: Option<&str> = match iss_c {
     0 => Some(H),
@@ -405,24 +560,32 @@ fn body(ctx: &Ctx, acc: &Acc, groups: u8, ch: &mut Chooser) {
     4 => Some("holder"),
     5 => None,
     6 => Some("did:example:holderx"),
-    _ => Some("did:example:holde"),
+    7 => Some("did:example:holde"),
+    8 => Some("did:other:holder"),
+    9 => Some("did:example:Holder"),
+    10 => Some("did:example:holder?versionId=1"),
+    _ => Some("did:example:holder/path"),
   };
   match iss_c {
     0 => {}
-    1 | 6 | 7 => x.fail("iss", "other-did", &["DocumentMismatch"]),
-    2 => x.fail("iss", "url-not-did", &["SignerUrl", "DocumentMismatch"]),
-    3 => x.fail("iss", "did-url-with-fragment", &["SignerUrl", "DocumentMismatch"]),
-    4 => x.fail("iss", "not-a-url", &["PresentationStructure"]),
-    _ => x.fail("iss", "absent", &["PresentationStructure"]),
+    // a well-formed DID that is not the id of the holder document (OTHER is also its controller and alsoKnownAs)
+    1 | 6 | 7 | 8 | 9 => x.fail("iss", "other-did", L_ISS_OTHER_DID),
+    2 => x.fail("iss", "url-not-did", L_ISS_NOT_DID),
+    3 => x.fail("iss", "did-url-with-fragment", L_ISS_NOT_DID),
+    10 => x.fail("iss", "did-url-with-query", L_ISS_NOT_DID),
+    11 => x.fail("iss", "did-url-with-path", L_ISS_NOT_DID),
+    4 => x.fail("iss", "not-a-url", L_ISS_NOT_DID),
+    _ => x.fail("iss", "absent", L_ISS_ABSENT),
   }
   let vp_holder: Option<&str> = match vph_c {
     0 => None,
     1 => Some(H),
-    _ => Some("did:example:mallory"),
+    2 => Some("did:example:mallory"),
+    _ => Some("did:example:holderx"),
   };
   if let Some(h) = vp_holder {
     if Some(h) != iss {
-      x.fail("vp.holder", if iss.is_none() { "without-iss" } else { "differs-from-iss" }, &["PresentationStructure"]);
+      x.fail("vp.holder", if iss.is_none() { "without-iss" } else { "differs-from-iss" }, L_VP);
     }
   }
   const ID1: &str = "https://example.com/presentations/1";
@@ -436,36 +599,41 @@ fn body(ctx: &Ctx, acc: &Acc, groups: u8, ch: &mut Chooser) {
   };
   if let Some(v) = vp_id {
     if jti != Some(v) {
-      x.fail("vp.id", if jti.is_none() { "without-jti" } else { "differs-from-jti" }, &["PresentationStructure"]);
+      x.fail("vp.id", if jti.is_none() { "without-jti" } else { "differs-from-jti" }, L_VP);
     }
   }
 
   // ------------------------------------------------------------ misc
   let aud_c = pt(ch, groups, G_MISC, "aud", 4, &[], &[1]);
-  let custom_c = pt(ch, groups, G_MISC, "custom claims", 2, &[], &[1]);
+  let custom_c = pt(ch, groups, G_MISC, "custom claims", 3, &[], &[1]);
   let creds_c = pt(ch, groups, G_MISC, "verifiableCredential", 4, &[], &[]);
   let shape_c = pt(ch, groups, G_MISC, "vp shape", 3, &[], &[]);
-  let props_c = pt(ch, groups, G_MISC, "vp properties", 2, &[], &[]);
+  let props_c = pt(ch, groups, G_MISC, "vp properties", 3, &[], &[]);
   let aud_json: Option<Value> = match aud_c {
     0 => None,
     1 => Some(json!("did:example:verifier")),
     2 => Some(json!("https://verifier.example/aud")),
     _ => {
-      x.o.insert("aud-array");
+      x.o.insert("aud-array", L_VP);
       Some(json!(["did:example:verifier"]))
     }
   };
-  let custom: Map<String, Value> = if custom_c == 1 {
-    json!({"foo": "bar", "n": 7, "nested": {"a": [1, 2]}}).as_object().unwrap().clone()
-  } else {
-    Map::new()
+  let custom: Map<String, Value> = match custom_c {
+    0 => Map::new(),
+    1 => json!({"foo": "bar", "n": 7, "nested": {"a": [1, 2]}}).as_object().unwrap().clone(),
+    // top-level claims named like vp members / header parameters (none of them a registered JWT claim)
+    _ => json!({"holder": "did:example:mallory", "id": "https://example.com/presentations/2", "nonce": "nonce-2",
+                "verifiableCredential": ["x"], "type": "T"})
+    .as_object()
+    .unwrap()
+    .clone(),
   };
   let creds: Option<Vec<&str>> = match creds_c {
     0 => Some(vec!["cred.one.sig"]),
     1 => None,
     2 => Some(vec!["cred.one.sig", "cred.two.sig"]),
     _ => {
-      x.o.insert("vc-empty-array");
+      x.o.insert("vc-empty-array", L_VP);
       Some(vec![])
     }
   };
@@ -474,7 +642,7 @@ fn body(ctx: &Ctx, acc: &Acc, groups: u8, ch: &mut Chooser) {
     0 => (json!(BASE_CTX), json!("VerifiablePresentation")),
     1 => (json!([BASE_CTX, "https://example.com/ctx/v1"]), json!(["VerifiablePresentation", "ExtraPresentation"])),
     _ => {
-      x.o.insert("vp-without-base-type");
+      x.o.insert("vp-without-base-type", L_VP);
       (json!(BASE_CTX), json!("SomethingElse"))
     }
   };
@@ -492,8 +660,27 @@ fn body(ctx: &Ctx, acc: &Acc, groups: u8, ch: &mut Chooser) {
   if let Some(i) = vp_id {
     vp.insert("id".into(), json!(i));
   }
-  if props_c == 1 {
+  // what was signed, in the normal form used by `judge_returned` ("type" always as a list)
+  let mut signed_props = Map::new();
+  let mut signed_refresh: Vec<Value> = Vec::new();
+  let mut signed_terms: Vec<Value> = Vec::new();
+  let mut signed_proof: Option<Value> = None;
+  if props_c >= 1 {
     vp.insert("extra".into(), json!({"p": 1}));
+    signed_props.insert("extra".into(), json!({"p": 1}));
+  }
+  if props_c == 2 {
+    vp.insert("refreshService".into(), json!({"id": "https://example.com/refresh/1", "type": "ManualRefreshService2018", "validUntil": "2031"}));
+    signed_refresh.push(json!({"id": "https://example.com/refresh/1", "type": ["ManualRefreshService2018"], "validUntil": "2031"}));
+    vp.insert(
+      "termsOfUse".into(),
+      json!([{"type": "IssuerPolicy", "id": "https://example.com/policies/1", "profile": "https://example.com/profiles/p"},
+             {"type": ["HolderPolicy", "Second"]}]),
+    );
+    signed_terms.push(json!({"type": ["IssuerPolicy"], "id": "https://example.com/policies/1", "profile": "https://example.com/profiles/p"}));
+    signed_terms.push(json!({"type": ["HolderPolicy", "Second"]}));
+    vp.insert("proof".into(), json!({"type": "DataIntegrityProof", "proofValue": "z58", "created": "2023-01-01T00:00:00Z"}));
+    signed_proof = Some(json!({"type": ["DataIntegrityProof"], "proofValue": "z58", "created": "2023-01-01T00:00:00Z"}));
   }
   let mut claims = Map::new();
   if let Some(i) = iss {
@@ -529,7 +716,7 @@ fn body(ctx: &Ctx, acc: &Acc, groups: u8, ch: &mut Chooser) {
   }
   let header_s = Value::Object(header).to_string();
   let payload = Value::Object(claims.clone()).to_string();
-  let mut token = fx::compact_ed(&header_s, payload.as_bytes(), &w.keys[sign_key]);
+  let mut token = fx::compact_ed(&header_s, payload.as_bytes(), &fix.keys[sign_key]);
   if sig_c == 3 {
     // keep header and signature, replace the payload segment by a different claims set
     let mut evil = claims.clone();
@@ -550,7 +737,9 @@ fn body(ctx: &Ctx, acc: &Acc, groups: u8, ch: &mut Chooser) {
     1 => vopts = vopts.method_scope(MethodScope::authentication()),
     2 => vopts = vopts.method_scope(MethodScope::assertion_method()),
     3 => vopts = vopts.method_scope(MethodScope::VerificationMethod),
-    _ => vopts = vopts.method_scope(MethodScope::key_agreement()),
+    4 => vopts = vopts.method_scope(MethodScope::key_agreement()),
+    5 => vopts = vopts.method_scope(MethodScope::capability_delegation()),
+    _ => vopts = vopts.method_scope(MethodScope::capability_invocation()),
   }
   let mut opts = JwtPresentationValidationOptions::new().presentation_verifier_options(vopts);
   if expopt_c == 0 {
@@ -563,11 +752,12 @@ fn body(ctx: &Ctx, acc: &Acc, groups: u8, ch: &mut Chooser) {
   // ------------------------------------------------------------ run the real validator
   let case = Case { groups, seq: ch.seq() };
   let jwt = Jwt::new(token);
-  let res = guard(|| w.validator.validate::<CoreDocument, Jwt, Object>(&jwt, &w.doc, &opts));
+  let res = guard(|| fix.validator.validate::<CoreDocument, Jwt, Object>(&jwt, &w.doc, &opts));
   let open = !x.o.is_empty();
-  let tag = if open { format!(" [open:{}]", x.o.iter().copied().collect::<Vec<_>>().join(",")) } else { String::new() };
+  let tag = if open { format!(" [open:{}]", x.o.keys().copied().collect::<Vec<_>>().join(",")) } else { String::new() };
   let res = match res {
     Err(p) => {
+      // "Otherwise an error is returned": unwinding is not returning an error
       ctx.violation(&format!("{ENTRY}|{}", p.key()), &format!("{} ; choices {:?}", p.msg, ch.labelled()), &case);
       acc.outcome("panic".into());
       return;
@@ -578,136 +768,183 @@ fn body(ctx: &Ctx, acc: &Acc, groups: u8, ch: &mut Chooser) {
     Ok(dec) => {
       acc.outcome(format!("accepted{tag}"));
       acc.distinct(Ctx::hash_of(&(groups, &case.seq)));
-      if acc.samples.fetch_add(1, Ordering::Relaxed) < 3 {
+      if groups == G_CLAIMS {
+        // the accepted cells of the (small) claims product: a deterministic set of samples
         ctx.sample("accepted", &case);
       }
       if !x.e.is_empty() {
         ctx.violation(
           &format!("{ENTRY}|accepted|{}", x.e_key()),
-          &format!("accepted although {:?} false; header {header_s} claims {payload}", x.e.keys().collect::<Vec<_>>()),
+          &format!("accepted although {:?} false; document D{world_c}; header {header_s} claims {payload}", x.e.keys().collect::<Vec<_>>()),
           &case,
         );
         return;
       }
-      judge_returned(ctx, &case, &dec, iss, jti, &ctx_json, &type_json, &creds, props_c == 1, &aud_json, aud_c, exp_int, exp_c, issuance, &custom, &payload);
+      let signed = Signed {
+        iss,
+        jti,
+        contexts: one_or_many(&ctx_json),
+        types: one_or_many(&type_json).into_iter().map(|v| v.as_str().unwrap_or("").to_string()).collect(),
+        creds: creds.clone().unwrap_or_default(),
+        props: signed_props,
+        refresh: signed_refresh,
+        terms: signed_terms,
+        proof: signed_proof,
+        // the array form of aud is open: only recorded
+        aud: if aud_c == 3 { None } else { Some(aud_json.as_ref().and_then(|v| v.as_str())) },
+        // a non-integer exp is open: only recorded
+        exp: if exp_c == 8 { None } else { Some(exp_int) },
+        issuance,
+        custom: &custom,
+        payload: &payload,
+      };
+      judge_returned(ctx, &case, &dec, &signed);
     }
     Err(err) => {
       let classes: Vec<&'static str> = err.presentation_validation_errors.iter().map(classify).collect();
       let label = if classes.is_empty() { "none".to_string() } else { classes.join(",") };
       acc.outcome(format!("rejected:{label}{tag}"));
-      if !classes.iter().all(|c| c.starts_with("Jws:")) {
+      if !classes.is_empty() && !classes.iter().all(|c| c.starts_with("Jws:")) {
         acc.distinct(Ctx::hash_of(&(groups, &case.seq)));
-      }
-      if classes.is_empty() {
-        ctx.violation(&format!("{ENTRY}|rejected|empty-error-list"), &payload, &case);
-        return;
       }
       if x.e.is_empty() && !open {
         ctx.violation(
           &format!("{ENTRY}|rejected|all-conditions-hold|{label}"),
-          &format!("every stated condition holds, got {err}; header {header_s} claims {payload}"),
+          &format!("every stated condition holds, got {err}; document D{world_c}; header {header_s} claims {payload}"),
           &case,
         );
         return;
       }
-      if !open {
-        for c in &classes {
-          if !x.e.values().any(|(_, legit)| legit.contains(c)) {
-            ctx.violation(
-              &format!("{ENTRY}|rejected|spurious-blame|{c}"),
-              &format!("error {c} blames a condition that holds (false: {:?}); {err}; header {header_s} claims {payload}", x.e.keys().collect::<Vec<_>>()),
-              &case,
-            );
-          }
+      // blame, also in the presence of open aspects (an open aspect may legitimately produce its own classes);
+      // an error list without entries names no condition: nothing to judge (recorded as rejected:none)
+      for c in &classes {
+        if unjudged_class(c) {
+          continue;
+        }
+        if !x.e.values().any(|(_, legit)| legit.contains(c)) && !x.o.values().any(|legit| legit.contains(c)) {
+          ctx.violation(
+            &format!("{ENTRY}|rejected|spurious-blame|{c}"),
+            &format!(
+              "error {c} blames a condition that holds (false: {:?}, open: {:?}); {err}; document D{world_c}; header {header_s} claims {payload}",
+              x.e.keys().collect::<Vec<_>>(),
+              x.o.keys().collect::<Vec<_>>()
+            ),
+            &case,
+          );
         }
       }
     }
   }
 }
 
-#[allow(clippy::too_many_arguments)]
-fn judge_returned(
-  ctx: &Ctx,
-  case: &Case,
-  dec: &DecodedJwtPresentation<Jwt, Object>,
-  iss: Option<&str>,
-  jti: Option<&str>,
-  ctx_json: &Value,
-  type_json: &Value,
-  creds: &Option<Vec<&str>>,
-  props: bool,
-  aud_json: &Option<Value>,
-  aud_c: usize,
-  exp_int: Option<i64>,
-  exp_c: usize,
+/// a JSON "one or many" as a list
+fn one_or_many(v: &Value) -> Vec<Value> {
+  match v {
+    Value::Array(a) => a.clone(),
+    other => vec![other.clone()],
+  }
+}
+
+/// What was signed, member by member (`None` in `aud` / `exp` = open, not judged).
+struct Signed<'a> {
+  iss: Option<&'a str>,
+  jti: Option<&'a str>,
+  contexts: Vec<Value>,
+  types: Vec<String>,
+  creds: Vec<&'a str>,
+  props: Map<String, Value>,
+  refresh: Vec<Value>,
+  terms: Vec<Value>,
+  proof: Option<Value>,
+  aud: Option<Option<&'a str>>,
+  exp: Option<Option<i64>>,
   issuance: Option<i64>,
-  custom: &Map<String, Value>,
-  payload: &str,
-) {
-  // presentation: the data-model form of what was signed
-  let mut want = Map::new();
-  want.insert("@context".into(), ctx_json.clone());
-  want.insert("type".into(), type_json.clone());
-  if let Some(c) = creds {
-    if !c.is_empty() {
-      want.insert("verifiableCredential".into(), json!(c));
+  custom: &'a Map<String, Value>,
+  payload: &'a str,
+}
+
+/// normal form of a typed member (refresh service, policy, proof): id, "type" as a list, the other properties
+fn typed_member(id: Option<&str>, types: &[String], props: &Object) -> Value {
+  let mut m = Map::new();
+  if let Some(id) = id {
+    m.insert("id".into(), json!(id));
+  }
+  m.insert("type".into(), json!(types));
+  for (k, v) in props.iter() {
+    m.insert(k.clone(), v.clone());
+  }
+  Value::Object(m)
+}
+
+/// accepted => the returned presentation / aud / dates / custom claims are those that were signed. The returned
+/// presentation is compared member by member through its public fields (not through its serialisation, whose
+/// one-or-many / empty-member conventions are not part of the property).
+fn judge_returned(ctx: &Ctx, case: &Case, dec: &DecodedJwtPresentation<Jwt, Object>, s: &Signed) {
+  let pres = &dec.presentation;
+  let mut differs: Vec<(&'static str, String)> = Vec::new();
+  let mut cmp = |field: &'static str, got: Value, want: Value| {
+    if got != want {
+      differs.push((field, format!("returned {got}, signed {want}")));
     }
-  }
-  if let Some(i) = iss {
-    want.insert("holder".into(), json!(i));
-  }
-  if let Some(j) = jti {
-    want.insert("id".into(), json!(j));
-  }
-  if props {
-    want.insert("extra".into(), json!({"p": 1}));
-  }
-  let got = serde_json::to_value(&dec.presentation).unwrap_or(Value::Null);
-  if got != Value::Object(want.clone()) {
-    let field = if got.get("holder") != want.get("holder") {
-      "holder"
-    } else if got.get("id") != want.get("id") {
-      "id"
-    } else if got.get("verifiableCredential") != want.get("verifiableCredential") {
-      "verifiableCredential"
-    } else {
-      "other-member"
-    };
+  };
+  cmp("holder", json!(pres.holder.as_str()), json!(s.iss));
+  cmp("id", json!(pres.id.as_ref().map(|u| u.as_str())), json!(s.jti));
+  cmp(
+    "@context",
+    Value::Array(pres.context.iter().map(|c| serde_json::to_value(c).unwrap_or(Value::Null)).collect()),
+    Value::Array(s.contexts.clone()),
+  );
+  cmp("type", json!(pres.types.iter().collect::<Vec<_>>()), json!(s.types));
+  cmp("verifiableCredential", json!(pres.verifiable_credential.iter().map(|j| j.as_str()).collect::<Vec<_>>()), json!(s.creds));
+  cmp("properties", Value::Object(pres.properties.clone().into_iter().collect()), Value::Object(s.props.clone()));
+  cmp(
+    "refreshService",
+    Value::Array(pres.refresh_service.iter().map(|r| typed_member(Some(r.id.as_str()), r.types.as_slice(), &r.properties)).collect()),
+    Value::Array(s.refresh.clone()),
+  );
+  cmp(
+    "termsOfUse",
+    Value::Array(pres.terms_of_use.iter().map(|t| typed_member(t.id.as_ref().map(|u| u.as_str()), t.types.as_slice(), &t.properties)).collect()),
+    Value::Array(s.terms.clone()),
+  );
+  cmp(
+    "proof",
+    pres.proof.as_ref().map(|p| typed_member(None, std::slice::from_ref(&p.type_), &p.properties)).unwrap_or(Value::Null),
+    s.proof.clone().unwrap_or(Value::Null),
+  );
+  for (field, what) in differs {
     ctx.violation(
       &format!("{ENTRY}|accepted|returned-presentation-differs|{field}"),
-      &format!("signed claims {payload}; returned presentation {got}; expected {}", Value::Object(want)),
+      &format!("{what}; signed claims {}", s.payload),
       case,
     );
   }
-  // aud (the array form is open: only recorded)
-  if aud_c != 3 {
-    let want_aud = aud_json.as_ref().and_then(|v| v.as_str());
+  if let Some(want_aud) = s.aud {
     let got_aud = dec.aud.as_ref().map(|u| u.as_str());
     if want_aud != got_aud {
       ctx.violation(&format!("{ENTRY}|accepted|returned-aud-differs"), &format!("signed {want_aud:?} returned {got_aud:?}"), case);
     }
   }
-  // expiration date (a non-integer exp is open: only recorded)
-  if exp_c != 8 {
+  if let Some(want_exp) = s.exp {
     let got_exp = dec.expiration_date.map(|t| t.to_unix());
-    if got_exp != exp_int {
-      ctx.violation(&format!("{ENTRY}|accepted|returned-expiration-differs"), &format!("signed exp {exp_int:?} returned {got_exp:?}"), case);
+    if got_exp != want_exp {
+      ctx.violation(&format!("{ENTRY}|accepted|returned-expiration-differs"), &format!("signed exp {want_exp:?} returned {got_exp:?}"), case);
     }
   }
   let got_iss = dec.issuance_date.map(|t| t.to_unix());
-  if got_iss != issuance {
+  if got_iss != s.issuance {
     ctx.violation(
       &format!("{ENTRY}|accepted|returned-issuance-differs"),
-      &format!("signed issuance (nbf, else iat) {issuance:?} returned {got_iss:?}; claims {payload}"),
+      &format!("signed issuance (nbf, else iat) {:?} returned {got_iss:?}; claims {}", s.issuance, s.payload),
       case,
     );
   }
   // custom claims: None and the empty object both mean "none"
   let got_custom: Map<String, Value> = dec.custom_claims.clone().map(|o| o.into_iter().collect()).unwrap_or_default();
-  if &got_custom != custom {
+  if &got_custom != s.custom {
     ctx.violation(
       &format!("{ENTRY}|accepted|returned-custom-claims-differ"),
-      &format!("signed {} returned {}", Value::Object(custom.clone()), Value::Object(got_custom)),
+      &format!("signed {} returned {}", Value::Object(s.custom.clone()), Value::Object(got_custom)),
       case,
     );
   }
@@ -723,13 +960,15 @@ fn eval(ctx: &Ctx, case: &Case) {
 }
 
 fn generate(ctx: &Ctx) {
-  ctx.rule("E1 choice DFS over 19 choice points (signature, kid, method_id, method_scope, header nonce, option nonce | exp, earliest_expiry_date, nbf, iat, latest_issuance_date | iss, vp.holder, jti/vp.id | aud, custom claims, verifiableCredential, vp shape, vp properties): all sequences with at most `deviation_bound` non-default choices, plus the complete product of each of the four groups with the other groups at default, the complete products dates x claims and claims x misc (thorough: also binding core x claims), and two condition lattices (every stated condition true / false by a canonical falsifier, all combinations). distinct_nontrivial = distinct (groups, choice sequence) whose execution got past the JWS stage (accepted, or rejected by an error that is not a PresentationJwsError)");
+  ctx.rule("E1 choice DFS over 20 choice points (holder document, signature, kid, method_id, method_scope | header nonce, option nonce | exp, earliest_expiry_date, nbf, iat, latest_issuance_date | iss, vp.holder, jti/vp.id | aud, custom claims, verifiableCredential, vp shape, vp properties): all sequences with at most `deviation_bound` non-default choices, plus the complete product of each group with the other groups at default (binding core = 3 documents x 4 signatures x 23 kid forms x 7 method ids x 7 scopes x 5^2 nonces), the complete products dates x claims and claims x misc (thorough: also binding core without nonces x claims, dates x misc, nonce^2 x claims), and two condition lattices (every stated condition true / false by a canonical falsifier, all combinations). distinct_nontrivial = distinct (groups, choice sequence) whose execution got past the JWS stage (accepted, or rejected by an error that is not a PresentationJwsError)");
   ctx.assume("Ed25519 signing by iota-crypto and base64url by identity_jose::jwu are trusted for assembling tokens; the real EdDSAJwsVerifier is used for verification");
   ctx.assume("issuance time of a presentation JWT is nbf when present, else iat (VC data model 1.1 §6.3.1 and the documented behaviour of IssuanceDateClaims)");
-  ctx.assume("open (recorded, not judged for liveness/blame): foreign-DID method listed in the holder document, kid with a query part, exp above year 9999 or non-integer, issuance below year 0, iat after the bound beside a passing nbf, aud as array, explicit empty verifiableCredential array, vp without the base type");
+  ctx.assume("open (recorded, not judged for liveness; blame judged against the classes the aspect may produce): foreign-DID method listed in the holder document, a method listed for key agreement only, kid with a query part, an empty nonce on one side and none on the other, exp above year 9999 or non-integer, issuance below year 0, iat after the bound beside a passing nbf, aud as array, explicit empty verifiableCredential array, vp without the base type");
+  ctx.assume("blame is judged on the documented meaning of the error variants only; unknown variants and an empty error list are recorded, not judged");
   ctx.bound("clock_now", fx::NOW);
   ctx.bound("earliest_expiry_date_explicit", EXP_BOUND);
   ctx.bound("latest_issuance_date_explicit", ISS_BOUND);
+  ctx.bound("holder_documents", FIX.worlds.len());
 
   let acc = Acc::new();
   let bound = ctx.by_tier(3u32, 4u32);
@@ -739,7 +978,7 @@ fn generate(ctx: &Ctx) {
   let mut parts: Vec<(u8, &str)> = vec![
     (G_LATTICE, "condition lattice A: every stated condition true/false in every combination (falsifiers: foreign key, unknown kid / method without JWK, header nonce, exp = bound-1, nbf = bound+1, iss = other DID, vp.holder differs, vp.id differs)"),
     (G_LATTICE | G_VARIANT_B, "condition lattice B (falsifiers: key of another holder method, kid absent / kid under another DID, scope assertionMethod, option nonce, exp below year 0, default bounds, nbf absent + iat = bound+1, iss = https URL, vp.id without jti; aud and custom claims present)"),
-    (G_BIND, "binding core (signature x kid x method_id x scope x nonce^2), complete"),
+    (G_BIND | G_NONCE, "binding core (document x signature x kid x method_id x scope x nonce^2), complete"),
     (G_DATES, "dates (exp x bound x nbf x iat x bound), complete"),
     (G_CLAIMS, "claims (iss x vp.holder x jti/vp.id), complete"),
     (G_MISC, "misc (aud x custom x credentials x shape x properties), complete"),
@@ -747,7 +986,9 @@ fn generate(ctx: &Ctx) {
   parts.push((G_DATES | G_CLAIMS, "dates x claims, complete"));
   parts.push((G_CLAIMS | G_MISC, "claims x misc, complete"));
   if ctx.thorough() {
-    parts.push((G_BIND | G_CLAIMS, "binding core x claims, complete"));
+    parts.push((G_BIND | G_CLAIMS, "binding core without nonces x claims, complete"));
+    parts.push((G_DATES | G_MISC, "dates x misc, complete"));
+    parts.push((G_NONCE | G_CLAIMS, "nonce^2 x claims, complete"));
   }
   for (g, name) in parts {
     choice::explore_into(ctx, name, None, |ch| body(ctx, &acc, g, ch));
